@@ -27,6 +27,93 @@ def tables(ctx, g):
     return out, where
 
 
+STATE_WORDS = ('last(', 'current_version', 'CURRENT_VERSION', 'is_empty(', '.len()', 'contains(', 'in_directive', 'first(')
+
+
+def begin_keywords_model(ctx):
+    """How begin_keywords maps a specifier to a Version and pushes it.
+    form 'arm'   : match <str> { "lit" => STACK.push(Version::V), .., _ => () }
+    form 'value' : the match (in the function or in a private helper it calls) yields Version::V per literal; the value is
+                   pushed once, possibly under `if let Some(v) = <mapping>` — but not under a condition on the stack state."""
+    g = ctx.grammar
+    bk = g.fns.get('begin_keywords')
+    out = {'form': None, 'map': {}, 'pushes': 0, 'state_cond': None, 'default_selects': False, 'why': ''}
+    if bk is None:
+        out['why'] = 'function not found'
+        return out
+    bodies = [bk.item['body']]
+    for n in sx.walk(bk.item['body']):
+        if sx.is_call(n) and n['f']['p'] in g.fns and g.fns[n['f']['p']].kind == 'other' and n['f']['p'] != 'begin_keywords':
+            h = g.fns[n['f']['p']]
+            if any(x.get('k') == 'path' and x['p'].startswith('Version::') for x in sx.walk(h.item['body'])):
+                bodies.append(h.item['body'])
+    ms = [m for b_ in bodies for m in sx.walk(b_) if m.get('k') == 'match' and
+          any(a['pat'].get('k') == 'lit' and sx.lit_str(a['pat'].get('e')) is not None for a in m['arms'])]
+    if len(ms) != 1:
+        out['why'] = '%d matches on string literals found' % len(ms)
+        return out
+    m = ms[0]
+    direct = 0
+    for arm in m['arms']:
+        lit = sx.lit_str(arm['pat'].get('e')) if arm['pat'].get('k') == 'lit' else None
+        vs = [n['p'] for n in sx.walk(arm['body']) if n.get('k') == 'path' and n['p'].startswith('Version::')]
+        pushes = [n for n in sx.walk(arm['body']) if n.get('k') == 'mcall' and n['m'] == 'push']
+        if lit is None:
+            if vs or pushes:
+                out['default_selects'] = True
+            continue
+        if len(vs) != 1:
+            out['why'] = 'arm "%s" selects %s' % (lit, vs)
+            return out
+        out['map'][lit] = vs[0].split('::')[1]
+        if pushes:
+            b_ = arm['body']
+            if b_.get('k') == 'mcall' and b_['m'] == 'push':
+                direct += 1
+            else:
+                out['why'] = 'arm "%s" pushes inside a larger expression' % lit
+                return out
+    all_pushes = [n for b_ in bodies for n in sx.walk(b_) if n.get('k') == 'mcall' and n['m'] == 'push']
+    out['pushes'] = len(all_pushes) if direct == 0 else 1
+    if direct and direct != len(out['map']):
+        out['why'] = 'some arms push and some do not'
+        return out
+    out['form'] = 'arm' if direct else 'value'
+    # conditions guarding a push
+    def conds_over(root, target, acc):
+        if root is target:
+            return list(acc)
+        if isinstance(root, dict):
+            for k_, v_ in root.items():
+                if k_ in ('l', 'col', 'el'):
+                    continue
+                acc2 = acc
+                if root.get('k') == 'if' and k_ in ('t', 'e'):
+                    acc2 = acc + [sx.render(root['c'])]
+                if root.get('k') == 'match' and k_ == 'arms' and root is not m:
+                    acc2 = acc + [sx.render(root['e'])]
+                r_ = conds_over(v_, target, acc2)
+                if r_ is not None:
+                    return r_
+        elif isinstance(root, list):
+            for x in root:
+                r_ = conds_over(x, target, acc)
+                if r_ is not None:
+                    return r_
+        return None
+    for pc in all_pushes:
+        for b_ in bodies:
+            cs = conds_over(b_, pc, [])
+            if cs:
+                for c_ in cs:
+                    if any(w in c_.replace(' ', '') for w in STATE_WORDS):
+                        out['state_cond'] = c_[:80]
+    if out['form'] == 'value' and out['pushes'] == 0:
+        out['form'] = None
+        out['why'] = 'the selected version is never pushed'
+    return out
+
+
 def run(ctx):
     g = ctx.grammar
     oracle = json.load(open(os.path.join(VERIF, 'oracle', 'keywords.json')))
@@ -78,71 +165,31 @@ def run(ctx):
     k2.exactly('is_keyword_fn', 1 if ik else 0, 1)
     pushed = {}
     if bk:
-        ms = [n for n in sx.walk(bk.item['body']) if n.get('k') == 'match']
-        k2.exactly('begin_keywords_match', len(ms), 1)
+        verdict = begin_keywords_model(ctx)
         where_bk = '%s/%s:%d' % (g.crate, bk.file, bk.line)
-        value_form = False
-        for m in ms:
-            for arm in m['arms']:
-                lit = sx.lit_str(arm['pat'].get('e')) if arm['pat'].get('k') == 'lit' else None
-                if lit is None:
-                    if arm['pat'].get('k') == 'wild':
-                        # default arm must do nothing (no push)
-                        if any(n.get('k') == 'mcall' and n['m'] == 'push' for n in sx.walk(arm['body'])) or \
-                                any(n.get('k') == 'path' and n['p'].startswith('Version::') for n in sx.walk(arm['body'])):
-                            k2.fail('%s:begin_keywords:default-arm' % g.crate, '%s/%s:%s' % (g.crate, bk.file, arm['l']),
-                                    'begin_keywords: the catch-all arm must not select a version (found %s)' % sx.render(arm['body'])[:60])
-                    continue
-                vs = [n['p'] for n in sx.walk(arm['body']) if n.get('k') == 'path' and n['p'].startswith('Version::')]
-                pushes = [n for n in sx.walk(arm['body']) if n.get('k') == 'mcall' and n['m'] == 'push']
-                k2.inst('begin:%s' % lit, {'specifier': lit, 'selects': vs})
-                if len(vs) != 1 or len(pushes) > 1:
-                    k2.fail('%s:begin_keywords:arm:%s' % (g.crate, lit), '%s/%s:%s' % (g.crate, bk.file, arm['l']),
-                            'begin_keywords("%s") must select exactly one Version (found %s)' % (lit, vs))
-                    continue
-                if not pushes:
-                    value_form = True
-                v = vs[0].split('::')[1]
-                pushed[lit] = v
+        k2.inst('begin_keywords-model', {'form': verdict['form'], 'specifiers': sorted(verdict['map']), 'pushes': verdict['pushes'],
+                                         'state_dependent_condition': verdict['state_cond']})
+        if verdict['form'] is None:
+            k2.undecided('%s:begin_keywords:shape' % g.crate, where_bk, 'begin_keywords: %s' % verdict['why'])
+        else:
+            pushed = verdict['map']
+            for lit, v in sorted(pushed.items()):
+                k2.inst('begin:%s' % lit, {'specifier': lit, 'selects': v})
                 okname = norm(v) == norm('ieee' + lit) or (lit == 'directive' and v == 'Directive')
                 if not okname:
-                    k2.fail('%s:begin_keywords:wrong-version:%s' % (g.crate, lit), '%s/%s:%s' % (g.crate, bk.file, arm['l']),
-                            'begin_keywords("%s") selects Version::%s' % (lit, v))
-        for sp in list(oracle['sets']) + ['directive']:
-            if sp not in pushed:
-                k2.fail('%s:begin_keywords:missing:%s' % (g.crate, sp), where_bk,
-                        'begin_keywords has no arm for "%s": the directive would silently keep the previous keyword set' % sp)
-        # the selected version is pushed exactly once, unconditionally
-        all_pushes = [n for n in sx.walk(bk.item['body']) if n.get('k') == 'mcall' and n['m'] == 'push']
-        cond_push = []
-
-        def under_if(node, target, inside=False):
-            if node is target:
-                return inside
-            if isinstance(node, dict):
-                for k_, v_ in node.items():
-                    if k_ in ('l', 'col', 'el'):
-                        continue
-                    ins = inside or (node.get('k') == 'if' and k_ in ('t', 'e'))
-                    r_ = under_if(v_, target, ins)
-                    if r_ is not None:
-                        return r_
-            elif isinstance(node, list):
-                for x in node:
-                    r_ = under_if(x, target, inside)
-                    if r_ is not None:
-                        return r_
-            return None
-        for pcall in all_pushes:
-            if under_if(bk.item['body'], pcall):
-                cond_push.append(pcall)
-        k2.inst('push-unconditional', {'pushes': len(all_pushes), 'conditional': len(cond_push), 'value_form': value_form})
-        if cond_push:
-            k2.fail('%s:begin_keywords:conditional-push' % g.crate, '%s/%s:%s' % (g.crate, bk.file, cond_push[0].get('l')),
-                    'begin_keywords pushes the selected version only under a condition (%s): a `begin_keywords region can then be opened '
-                    'without a stack entry while `end_keywords always pops, so the region below is closed instead' % sx.render(cond_push[0])[:60])
-        if value_form and len(all_pushes) != 1:
-            k2.fail('%s:begin_keywords:push-count' % g.crate, where_bk, 'begin_keywords selects a version by value but pushes it %d times' % len(all_pushes))
+                    k2.fail('%s:begin_keywords:wrong-version:%s' % (g.crate, lit), where_bk, 'begin_keywords("%s") selects Version::%s' % (lit, v))
+            for sp in list(oracle['sets']) + ['directive']:
+                if sp not in pushed:
+                    k2.fail('%s:begin_keywords:missing:%s' % (g.crate, sp), where_bk,
+                            'begin_keywords has no arm for "%s": the directive would silently keep the previous keyword set' % sp)
+            if verdict['default_selects']:
+                k2.fail('%s:begin_keywords:default-arm' % g.crate, where_bk, 'begin_keywords: the catch-all arm must not select a version')
+            if verdict['state_cond']:
+                k2.fail('%s:begin_keywords:conditional-push' % g.crate, where_bk,
+                        'begin_keywords pushes the selected version only under a condition on the stack itself (%s): a `begin_keywords region '
+                        'can then be opened without a stack entry while `end_keywords always pops, so the region below is closed instead' % verdict['state_cond'])
+            if verdict['pushes'] != 1 and verdict['form'] == 'value':
+                k2.fail('%s:begin_keywords:push-count' % g.crate, where_bk, 'begin_keywords selects a version by value but pushes it %d times' % verdict['pushes'])
     if ik:
         ms = [n for n in sx.walk(ik.item['body']) if n.get('k') == 'match']
         k2.exactly('is_keyword_match', len(ms), 1)
@@ -154,26 +201,37 @@ def run(ctx):
                 pat = sx.render(arm['pat'])
                 body = sx.render(arm['body'])
                 k2.inst('table-of:%s' % pat, {'version': pat, 'table': body})
-                if pat == 'None':
-                    if body != 'KEYWORDS_1800_2017':
-                        k2.fail('%s:is_keyword:default' % g.crate, '%s/%s:%s' % (g.crate, ik.file, arm['l']),
-                                'with no `begin_keywords in force the IEEE 1800-2017 set applies; is_keyword uses %s' % body)
-                    continue
-                mm = re.match(r'^Some\(Version::(\w+)\)$', pat)
-                if not mm or not body.startswith('KEYWORDS_'):
-                    k2.fail('%s:is_keyword:arm:%s' % (g.crate, pat), '%s/%s:%s' % (g.crate, ik.file, arm['l']),
-                            'is_keyword: unrecognised arm %s => %s (fail closed)' % (pat, body))
-                    continue
-                v = mm.group(1)
-                if norm('ieee' + body[len('KEYWORDS_'):]) != norm(v) and not (v == 'Directive' and body == 'KEYWORDS_DIRECTIVE'):
-                    k2.fail('%s:is_keyword:wrong-table:%s' % (g.crate, v), '%s/%s:%s' % (g.crate, ik.file, arm['l']),
-                            'is_keyword: Version::%s selects %s' % (v, body))
+                alts = [x.strip() for x in pat.split('|')]
+                for alt_ in alts:
+                    if alt_ == 'None':
+                        if body != 'KEYWORDS_1800_2017':
+                            k2.fail('%s:is_keyword:default' % g.crate, '%s/%s:%s' % (g.crate, ik.file, arm['l']),
+                                    'with no `begin_keywords in force the IEEE 1800-2017 set applies; is_keyword uses %s' % body)
+                        continue
+                    mm = re.match(r'^Some\(Version::(\w+)\)$', alt_)
+                    if not mm or not body.startswith('KEYWORDS_'):
+                        k2.undecided('%s:is_keyword:arm:%s' % (g.crate, alt_), '%s/%s:%s' % (g.crate, ik.file, arm['l']),
+                                     'is_keyword: arm %s => %s not recognised' % (alt_, body[:40]))
+                        continue
+                    v = mm.group(1)
+                    if norm('ieee' + body[len('KEYWORDS_'):]) != norm(v) and not (v == 'Directive' and body == 'KEYWORDS_DIRECTIVE'):
+                        k2.fail('%s:is_keyword:wrong-table:%s' % (g.crate, v), '%s/%s:%s' % (g.crate, ik.file, arm['l']),
+                                'is_keyword: Version::%s selects %s' % (v, body))
         # the comparison is on the whole fragment
-        cmp_ok = any(n.get('k') == 'binary' and n['op'] == '==' and 'fragment' in sx.render(n) for n in sx.walk(ik.item['body']))
+        # the comparison is equality of the whole fragment (directly or through a local bound to it)
+        frag_locals = {sx.pat_idents(st_['pat'])[0] for st_ in sx.walk(ik.item['body']) if st_.get('k') == 'let' and 'pat' in st_ and 'init' in st_
+                       and st_['pat'].get('k') == 'ident' and 'fragment()' in sx.render(st_['init'])}
+        eqs = [n for n in sx.walk(ik.item['body']) if n.get('k') == 'binary' and n['op'] == '==']
+        cmp_ok = any('fragment' in sx.render(n) or any(sx.is_path(sx.strip_ref(x), v_) for x in (n['l_'], n['r']) for v_ in frag_locals) for n in eqs) \
+            or any(n.get('k') == 'mcall' and n['m'] == 'contains' and ('fragment' in sx.render(n) or any(v_ in sx.render(n) for v_ in frag_locals))
+                   for n in sx.walk(ik.item['body']))
+        partial = [n for n in sx.walk(ik.item['body']) if n.get('k') == 'mcall' and n['m'] in ('starts_with', 'ends_with', 'find', 'eq_ignore_ascii_case')]
         k2.inst('whole-lexeme-compare')
-        if not cmp_ok:
+        if partial:
             k2.fail('%s:is_keyword:compare' % g.crate, '%s/%s:%d' % (g.crate, ik.file, ik.line),
-                    'is_keyword must compare the whole fragment with `==` against each table entry')
+                    'is_keyword must test equality of the whole lexeme; it uses .%s()' % partial[0]['m'])
+        elif not cmp_ok:
+            k2.undecided('%s:is_keyword:compare' % g.crate, '%s/%s:%d' % (g.crate, ik.file, ik.line), 'is_keyword: how the lexeme is compared with the table is not recognised')
     k2.floor('dispatch_arms', k2.instances, 18)
 
     # ------------------------------------------------------------------ K3
